@@ -104,6 +104,14 @@ func runOne(t *testing.T, sc *Scenario, seed uint64, replay []int, wantTrace boo
 			teardown(k)
 		})
 	})
+	if k != nil && res.Violation == nil && res.Aborted == "" {
+		for _, f := range k.PostRun {
+			if v := f(); v != nil {
+				res.Violation = v
+				break
+			}
+		}
+	}
 	if k != nil {
 		res.Digest = k.W.Digest()
 		res.Stats = k.W.Stats
